@@ -21,6 +21,7 @@ import NomtModel.Driver.PrepSyncMode
 import NomtModel.Driver.HasherMode
 import NomtModel.Driver.CachesMode
 import NomtModel.Driver.ExtRangeMode
+import NomtModel.Driver.OpenPathMode
 /-!
 `nomt_model`: the executable Lean model behind a line protocol.
 First argument selects the sub-protocol; stdin → stdout, one output line per input line.
@@ -61,4 +62,5 @@ def main (args : List String) : IO UInt32 := do
   | ["hasher"] => loop stdin stdout hasherStep {}; return 0
   | ["caches"] => loop stdin stdout cachesStep {}; return 0
   | ["extrange"] => loop stdin stdout extrangeStep {}; return 0
+  | ["openpath"] => loop stdin stdout openpathStep (); return 0
   | _ => IO.eprintln "usage: nomt_model <core|...>"; return 2
